@@ -43,7 +43,10 @@ def main():
     for sid in ids:
         d = SEEDED / sid
         meta = json.loads((d / "meta.json").read_text())
-        props = [meta["property"]] + [x for x in a.also.split(",") if x]
+        # meta["checks"]: the registered checks expected to report this change (default: the check of the property it was
+        # seeded against; a change placed in a shared helper may be reported by the check of the property that owns the helper)
+        expected = meta.get("checks", [meta["property"]])
+        props = list(dict.fromkeys(expected + [x for x in a.also.split(",") if x]))
         patch = d / "patch.diff"
         env = dict(os.environ)
         tmp = Path(f"/tmp/seedrun_{sid}")
@@ -60,15 +63,17 @@ def main():
                 subprocess.run(["git", "-C", "/repo", "worktree", "add", "-q", "--detach", str(tmp), "HEAD"], check=True)
                 subprocess.run(["git", "-C", str(tmp), "apply", str(patch)], check=True)
                 env.update(MOLGRI_REPO=str(tmp), VERIF_EVIDENCE_DIR=f"/tmp/seedrun_{sid}_ev", VERIF_REPLAY_DIR=f"/tmp/seedrun_{sid}_rp")
+            detected_by_expected = False
             for prop in props:
                 rc, vio, tail = run_check(prop, a.tier, env)
                 ok = rc == 1 and bool(vio)
-                if prop == meta["property"]:
-                    allok &= ok
+                if prop in expected:
+                    detected_by_expected = detected_by_expected or ok
                 results[f"{sid}/{prop}"] = {"rc": rc, "violation": vio}
                 print(f"{sid:28s} {prop} rc={rc} {'DETECTED' if ok else 'MISSED  '} {vio[0] if vio else ''}")
-                if not ok and prop == meta["property"]:
+                if not ok and prop in expected:
                     print("    " + tail.replace("\n", "\n    ")[-800:])
+            allok &= detected_by_expected
         finally:
             if a.in_repo:
                 subprocess.run(["git", "-C", "/repo", "checkout", "--", "."])
